@@ -118,8 +118,10 @@ pub struct InstCache {
     pub distinct: usize,
 }
 impl InstCache {
-    pub fn get(&mut self, v: &Val, n: usize) -> Rc<Result<Instance, String>> {
+    pub fn get(&mut self, v: &Val, n: usize) -> Rc<Result<Instance, String>> { self.get_with(v, n, &[]) }
+    pub fn get_with(&mut self, v: &Val, n: usize, empty: &[String]) -> Rc<Result<Instance, String>> {
         let mut ctx = render::Ctx::new(n);
+        ctx.empty = empty.to_vec();
         let ts = render::render(v, &mut ctx);
         let text = ts.to_string();
         self.rendered += 1;
@@ -133,6 +135,22 @@ impl InstCache {
         self.map.insert(text, r.clone());
         r
     }
+}
+
+/// collections that are empty on this path (from emptiness atoms)
+pub fn empties(cond: &BTreeMap<String, bool>) -> Vec<String> {
+    let mut v = Vec::new();
+    for (a, b) in cond {
+        if !*b { continue; }
+        if let Some(x) = a.strip_prefix("?len(").and_then(|x| x.strip_suffix(")==0")) { v.push(x.to_string()); }
+        if let Some(x) = a.strip_prefix("all-empty(").and_then(|x| x.strip_suffix(')')) { for c in x.split(',') { v.push(c.to_string()); } }
+    }
+    v
+}
+
+/// a path that describes the zero-element shape of a field / variant collection (accumulator or slice empty)
+pub fn shape_path(cond: &BTreeMap<String, bool>) -> bool {
+    cond.iter().any(|(a, b)| *b && ((a.starts_with("all-empty(") && !a.contains("WhereClauseBuilder")) || (a.starts_with("?len(") && a.ends_with("==0"))))
 }
 
 pub fn cond_str(c: &BTreeMap<String, bool>) -> String {
